@@ -32,7 +32,7 @@ func C02(c *Ctx) {
 	r.Rule("R02.2", "counter writers: every store to an InterchainCounter/ReceiptCounter/SourceInterchainCounter/SourceReceiptCounter element is in a function reachable only from HandleIBTP (static call graph of the contracts package), never from another dispatchable entry; the request counter is advanced by exactly one (counter[k] = counter[k] + 1).")
 	r.Rule("R02.3", "processing only after the checks: in HandleIBTP, ProcessIBTP and notifySrcDst lie behind the no-error edges of checkIBTP and of begin/reportTransaction; notifySrcDst is called once (not in a loop) and posts exactly one interchain event per call.")
 	r.Rule("R02.4", "coherent counter updates: the (from, to, index) triple handed to setDestInterchain comes from one source - the three fields of one IBTP or the three results of one ParseIBTPID call - so a pair's counter is never set from another pair's index.")
-	r.Rule("R02.5", "record windows do not overlap: between loading an interchain record (getInterchain, or receiving it as a parameter) and writing it back (setInterchain, directly or in a helper that receives it), no other interchain record is written; the keys of two records are run-time values that may coincide (source == destination), and then the later write-back restores the stale copy, dropping the counter increment - the index would be accepted twice.")
+	r.Rule("R02.5", "record windows do not overlap: between loading an interchain record (getInterchain, or receiving it as a parameter) and writing it back (setInterchain, directly or in a helper that receives it), no other interchain record is written; the keys of two records are run-time values that may coincide (source == destination), and then the later write-back restores the stale copy, dropping the counter increment - the index would be accepted twice; a record loaded with getInterchain(k) is written back under the same key k.")
 	c.c02Windows()
 	r.Rule("R02.6", "acceptance consumes the index: on every path of ProcessIBTP through the request branch (Category() == REQUEST and not a rollback notification) InterchainCounter[to] is advanced and the record is written back before the function returns - also when the target is unavailable and the transaction begins as failed; otherwise checkIBTP keeps expecting the same index and the identical request is accepted again.")
 	c.c02Consumes()
@@ -578,6 +578,18 @@ func (c *Ctx) c02Windows() {
 					if after.Has(cl) {
 						bad = c.P.Pos(f.Pos())
 					}
+				}
+			}
+			// a record loaded under one key goes back under the same key (Register tests the existence of the record
+			// it is about to create: a different key always reports "missing" and the counters are reset)
+			if gc, _ := core.CallOf(w.v); gc != nil && strings.HasSuffix(core.CalleeName(gc), "InterchainManager).getInterchain") && len(gc.Call.Args) >= 2 {
+				for _, cl := range sites(fn, closes) {
+					sc, ok := cl.(ssa.CallInstruction)
+					if !ok || !isSet(sc) || len(sc.Common().Args) < 2 {
+						continue
+					}
+					r.Check(sameValue(gc.Call.Args[1], sc.Common().Args[1]), "R02.5", fmt.Sprintf("%s: record of window #%d is loaded and stored under one key", shortFn(fn), wi), c.P.Pos(cl.Pos()), "getInterchain(k) ... setInterchain(k, record)",
+						"the record is looked up under one key and written under another: the lookup never finds the stored record, so the existing counters of the service are overwritten with a fresh record (the accepted indices start again at 1)")
 				}
 			}
 			key := fmt.Sprintf("%s: window of %s #%d holds no other record write", shortFn(fn), w.what, wi)
